@@ -4,6 +4,7 @@ CONSTANTS
   NNames = 3
   MaxOps = @MAXOPS@
   WithHist = TRUE
+  Part = @PART@
 INIT Init
 NEXT Next
 INVARIANTS TypeOK
